@@ -130,7 +130,12 @@ impl Property for C17Prop {
 /// state that an execution needs is made by that execution: a program whose text makes cells,
 /// iterators and fillers in every position gives, on each of several executions of one parsed Code,
 /// what a fresh parse and a single execution give
-const FRESH_STATE: [&str; 14] = [
+const FRESH_STATE: [&str; 19] = [
+    "it := [mut 5]~; it(); f := it().1; f += 7; *f",
+    "it := [mut 5]~; it(); f := it().1; g := it().1; f += 7; (*f, *g)",
+    "it := [mut 5]~ ? mut int; it(); f := it().1; f += 7; *f",
+    "it := [(mut 1, 2)]~; it(); t := it().1; c := t.0; c += 7; *c",
+    "counter := mut 0; bump := () -> int { counter += 1; return *counter; }; bump(); bump(); (bump(), *counter)",
     "it := [1]~ ? mut int; it(); c := it().1; c += 10; *c",
     "it := [1, \"s\"]~ ? mut int|mut string; c := it().1; if k: mut int = c { k += 3; }; if k: mut string = c { k += \"x\"; }; c",
     "it := [1]~ ? (mut int, int); t := it().1; c := t.0; c += 10; (*c, t.1)",
@@ -443,6 +448,47 @@ pub fn run(session: &Session) -> i32 {
                 inputs.push(json!({"declares": declares, "text": format!("{st};")}));
             }
             cases.push(json!({"kind": "repl", "files": {}, "inputs": inputs}));
+        }
+    }
+    // a construct that binds a name locally to a run-time value and uses it, with the same name declared
+    // outside as a constant, as a run-time value, as a value of another type or not at all: one statement
+    // per input, two per input, and the whole as one input
+    {
+        let constructs: [(&str, &[&str]); 11] = [
+            ("n := match next() { v: int => v + 2, => 0, };", &["n"]),
+            ("n := if v: int = next() { v + 2 } else { 0 };", &["n"]),
+            ("n := mut 0; k := mut 0; while v: int = src(k) { n += v; k += 1; };", &["n", "k"]),
+            ("n := mut 0; for v in [next(), 7]~ { n += v; };", &["n"]),
+            ("g := (v: int) -> int { return v + 2; }; n := g(next());", &["g", "n"]),
+            ("n := { v := next(); v + 2 };", &["n"]),
+            ("n := [next()]~ @ (v: int) -> int { return v + 2; } $];", &["n"]),
+            ("m := mod { v := next(); w := v + 2; }; n := m.w;", &["m", "n"]),
+            ("n := match (next(), 1) { v: (int, int) => v.0 + 2, => 0, };", &["n"]),
+            ("h := () -> int { r := match next() { v: int => v + 2, => 0, }; return r; }; n := h();", &["h", "n"]),
+            ("n := [3]~ $ next() (v: int, w: int) -> int { return v + w; };", &["n"]),
+        ];
+        let outers: [(&str, &[&str]); 5] = [("v := 1;", &["v"]), ("v := next() + 1;", &["v"]), ("v := \"text\";", &["v"]), ("v := mut 1;", &["v"]), ("", &[])];
+        let prelude = [
+            json!({"declares": ["next"], "text": "next := () -> int { return 40; };"}),
+            json!({"declares": ["src"], "text": "src := (k: mut int) -> int|string { if *k < 2 { return *k + 10; } return \"end\"; };"}),
+        ];
+        for (outer, onames) in outers {
+            for (construct, cnames) in constructs {
+                let last = if outer.is_empty() { "(n, 0)" } else { "(n, v)" };
+                let body = [(outer, onames), (construct, cnames), (last, &[] as &[&str])];
+                // one statement per input
+                let mut inputs: Vec<Json> = prelude.to_vec();
+                for (text, names) in body.iter().filter(|(t, _)| !t.is_empty()) {
+                    inputs.push(json!({"declares": names, "text": text}));
+                }
+                cases.push(json!({"kind": "repl", "files": {}, "inputs": inputs}));
+                // the outer declaration and the construct in one input
+                let mut inputs: Vec<Json> = prelude.to_vec();
+                let names: Vec<&str> = onames.iter().chain(cnames.iter()).copied().collect();
+                inputs.push(json!({"declares": names, "text": format!("{outer} {construct}")}));
+                inputs.push(json!({"declares": [], "text": last}));
+                cases.push(json!({"kind": "repl", "files": {}, "inputs": inputs}));
+            }
         }
     }
     // recorded finding: the empty array literal carries the element type `!` wherever it flows, so a later
